@@ -375,9 +375,9 @@ fn items(tier: Tier) -> &'static Vec<Item> {
                 for p in permutations(2) {
                     v.push(Item::Srv(SrvScenario { actions: prog.clone(), order: Some(p), late_last: false }, 0));
                 }
-                v.push(Item::Srv(SrvScenario { actions: prog.clone(), order: None, late_last: false }, if thorough { 2 } else { 1 }));
-                v.push(Item::Srv(SrvScenario { actions: prog.clone(), order: None, late_last: true }, if thorough { 1 } else { 0 }));
-                v.push(Item::Seam(SeamScenario { actions: prog.clone() }, if thorough { None } else { Some(3) }));
+                v.push(Item::Srv(SrvScenario { actions: prog.clone(), order: None, late_last: false }, 2));
+                v.push(Item::Srv(SrvScenario { actions: prog.clone(), order: None, late_last: true }, 1));
+                v.push(Item::Seam(SeamScenario { actions: prog.clone() }, None));
             }
         }
         // n = 3: all programs over the quick action set with all 6 forced orders
@@ -389,9 +389,11 @@ fn items(tier: Tier) -> &'static Vec<Item> {
                     for p in permutations(3) {
                         v.push(Item::Srv(SrvScenario { actions: prog.clone(), order: Some(p), late_last: false }, 0));
                     }
+                    v.push(Item::Srv(SrvScenario { actions: prog.clone(), order: None, late_last: false }, 1));
                     if thorough {
-                        v.push(Item::Srv(SrvScenario { actions: prog.clone(), order: None, late_last: false }, 1));
                         v.push(Item::Seam(SeamScenario { actions: prog.clone() }, Some(2)));
+                    } else {
+                        v.push(Item::Seam(SeamScenario { actions: prog.clone() }, Some(1)));
                     }
                 }
             }
@@ -472,10 +474,9 @@ impl Check for C01 {
     }
     fn rule(&self, tier: Tier) -> String {
         format!(
-            "answer actions {:?}; n=2: every program, handler threads started in both forced orders (bound 0), all at once (strict bound {}), with the second request sent while the first handler already runs (connection thread parsing concurrently), and at the SequentialWriter seam ({}); n=3: every program over 6 actions with all 6 forced orders{}; {} scenarios; oracle: the client stream parses into complete messages whose (status, request id) sequence is the request order (writers that emit nothing are skipped, a dropped request shows as 500), bodies carry their own request id, no hang; non-trivial = all",
-            actions(tier).iter().map(|a| a.label()).collect::<Vec<_>>(), if tier == Tier::Thorough { 2 } else { 1 },
-            if tier == Tier::Thorough { "ALL interleavings, unbounded" } else { "chess bound 3" },
-            if tier == Tier::Thorough { ", racing at strict bound 1 and at the seam at chess bound 2; n=4: 4 actions, all 24 forced orders" } else { "; n=4: 3 actions (respond, unused raw writer, drop), all 24 forced orders" },
+            "answer actions {:?}; n=2: every program, handler threads started in both forced orders (bound 0), all at once (strict bound 2), with the second request sent while the first handler already runs (connection thread parsing concurrently, bound 1), and at the SequentialWriter seam (ALL interleavings, unbounded); n=3: every program over 6 actions with all 6 forced orders, racing at strict bound 1{}; {} scenarios; oracle: the client stream parses into complete messages whose (status, request id) sequence is the request order (writers that emit nothing are skipped, a dropped request shows as 500), bodies carry their own request id, no hang; non-trivial = all",
+            actions(tier).iter().map(|a| a.label()).collect::<Vec<_>>(),
+            if tier == Tier::Thorough { " and at the seam at chess bound 2; n=4: 4 actions, all 24 forced orders" } else { " and at the seam at chess bound 1; n=4: 3 actions (respond, unused raw writer, drop), all 24 forced orders" },
             items(tier).len()
         )
     }
